@@ -28,6 +28,8 @@ PY
 }
 export -f one
 ls refactorings | grep -E "^C[0-9]+-r[0-9]+$" | grep -E "$(echo "$GLOB" | sed 's/\*/.*/g')" | xargs -P $J -I{} bash -c "one {}" | sort
-n=$(grep -l '"VIOLATION\|"UNDECIDED' refactorings/*/meta.json 2>/dev/null | wc -l)
+n=$(python3 -c "
+import json,glob
+print(sum(1 for f in glob.glob('/verif/refactorings/*/meta.json') if json.load(open(f)).get('alarms')))")
 echo "$n refactoring(s) with alarms"
 [ "$n" = 0 ]
